@@ -357,6 +357,12 @@ func runC06(tier string, seed uint64) {
 					return &upl{key: keys[rng.Intn(2)], id: "424242", etags: map[int]string{}}
 				}
 				u := ups[rng.Intn(len(ups))]
+				if rng.Intn(10) == 0 {
+					// another spelling of a live upload id (a leading zero, a sign, a blank, a fraction) is
+					// another string: it names no upload, and nothing changes
+					sp := []string{"0" + u.id, "+" + u.id, " " + u.id, u.id + " ", "00" + u.id, u.id + ".0", "-0" + u.id}
+					return &upl{key: u.key, id: sp[rng.Intn(len(sp))], etags: u.etags}
+				}
 				if rng.Intn(8) == 0 {
 					// a live upload id addressed through the other key: NoSuchUpload, and nothing changes
 					other := keys[0]
@@ -650,6 +656,18 @@ func runC14(tier string, seed uint64) {
 			}
 			for _, m := range []int{0, 1, 2, 4, 13, 14, 41, 42, 9999, 10000, 10001, 20000, 1000000, 1 << 40} {
 				s.ListParts(b, u.key, u.id, m, 1+rng.Intn(3))
+			}
+			// markers beyond every integer type: still numbers beyond the highest part. Refused, or answered
+			// with no part; never with parts that lie below the marker
+			for _, m := range []string{"9223372036854775807", "9223372036854775808", "18446744073709551615", "18446744073709551616", "99999999999999999999", "1" + strings.Repeat("0", 40)} {
+				r := do(s.h, Req{Method: "GET", Path: "/" + pathEscape(b) + "/" + pathEscape(u.key) + "?uploadId=" + queryEscape(u.id) + "&part-number-marker=" + m})
+				nums := xmlAll(string(r.Body), "PartNumber")
+				msg := fmt.Sprintf("%s: ListParts with part-number-marker=%s answers %d with parts %v (IsTruncated %v)", s.kind, m, r.Status, nums, xmlAll(string(r.Body), "IsTruncated"))
+				if r.Status >= 400 && r.Status < 500 || r.Status == 200 && len(nums) == 0 && !strings.Contains(string(r.Body), "<IsTruncated>true") {
+					emit(s.prop, "GOOD", hs(msg))
+				} else {
+					emit(s.prop, "BAD", hs("S:parts-below-the-marker-listed "+msg))
+				}
 			}
 		}
 		// upload listings
